@@ -268,4 +268,96 @@ theorem feed_append (c : Cfg) (s : St) (xs ys : List Tok) :
   | nil => simp [feed]
   | cons t ts ih => simp only [List.cons_append, feed, ih, List.append_assoc]
 
+/-! ## `retype` on the frames of the reader -/
+
+theorem retype_rt (b : Nat) (r : Bytes) (h : 0xF8 ≤ b) : retype (b :: r) = some (some [b]) := by
+  simp only [retype, h, if_true]
+
+theorem retype_F7 (r : Bytes) : retype (0xF7 :: r) = none := by simp [retype]
+
+theorem retype_sysex (r : Bytes) : retype (0xF0 :: r) = some (some (0xF0 :: r)) := by simp [retype]
+
+theorem retype_F6 (r : Bytes) : retype (0xF6 :: r) = some (some [0xF6]) := by simp [retype, tune]
+
+theorem retype_F1 (d : Nat) (r : Bytes) (hd : d < 0x80) : retype (0xF1 :: d :: r) = some (some [0xF1, d]) := by
+  simp only [retype, mtc_eq]
+  simp; omega
+
+theorem retype_F3 (d : Nat) (r : Bytes) (hd : d < 0x80) : retype (0xF3 :: d :: r) = some (some [0xF3, d]) := by
+  simp only [retype, songSelect_eq]
+  simp; omega
+
+theorem retype_F2 (d1 d2 : Nat) (r : Bytes) (h1 : d1 < 0x80) (h2 : d2 < 0x80) :
+    retype (0xF2 :: d1 :: d2 :: r) = some (some [0xF2, d1, d2]) := by
+  simp only [retype, spp_eq, parsePitchWheelVals_eq]
+  simp; omega
+
+/-- channel voice frames: the constructor called by `_channelMessage` rebuilds exactly the wire bytes
+    (two bytes for program change / channel pressure, whose frame carries a padding 0) -/
+theorem retype_chan (st d1 d2 : Nat) (r : Bytes) (hlo : 0x80 ≤ st) (hhi : st ≤ 0xEF) (h1 : d1 < 0x80) (h2 : d2 < 0x80) :
+    retype (st :: d1 :: d2 :: r) =
+      some (some (if 0xC0 ≤ st ∧ st ≤ 0xDF then [st, d1] else [st, d1, d2])) := by
+  have hps := parseStatus_eq st (by omega)
+  have e1 : ¬ 0xF8 ≤ st := by omega
+  have e2 : ¬ (0xF0 < st ∧ st < 0xF7) := by omega
+  have e3 : ¬ st = 0xF7 := by omega
+  have e4 : ¬ st = 0xF0 := by omega
+  have e5 : 0x80 ≤ st ∧ st ≤ 0xEF := ⟨hlo, hhi⟩
+  simp only [retype, if_neg e1, if_neg e2, if_neg e3, if_neg e4, if_pos e5, hps]
+  have hk : st / 16 = 8 ∨ st / 16 = 9 ∨ st / 16 = 10 ∨ st / 16 = 11 ∨ st / 16 = 12 ∨ st / 16 = 13 ∨ st / 16 = 14 := by
+    omega
+  rcases hk with hk | hk | hk | hk | hk | hk | hk
+  · have hc : ¬ (0xC0 ≤ st ∧ st ≤ 0xDF) := by omega
+    simp only [hk, if_neg hc, noteOffVelocity_eq]; simp; omega
+  · have hc : ¬ (0xC0 ≤ st ∧ st ≤ 0xDF) := by omega
+    simp only [hk, if_neg hc, noteOn_eq]; simp; omega
+  · have hc : ¬ (0xC0 ≤ st ∧ st ≤ 0xDF) := by omega
+    simp only [hk, if_neg hc, polyAfterTouch_eq]; simp; omega
+  · have hc : ¬ (0xC0 ≤ st ∧ st ≤ 0xDF) := by omega
+    simp only [hk, if_neg hc, controlChange_eq]; simp; omega
+  · have hc : 0xC0 ≤ st ∧ st ≤ 0xDF := by omega
+    simp only [hk, if_pos hc, programChange_eq]; simp; omega
+  · have hc : 0xC0 ≤ st ∧ st ≤ 0xDF := by omega
+    simp only [hk, if_pos hc, afterTouch_eq]; simp; omega
+  · have hc : ¬ (0xC0 ≤ st ∧ st ≤ 0xDF) := by omega
+    simp only [hk, if_neg hc, parsePitchWheelVals_eq, pitchbend_eq, clampPitch_eq]; simp; omega
+
+/-- a message as delivered to the listener of `midi.ListenTo`: status byte first, then exactly the data bytes
+    its kind requires, all `< 0x80`; a sysex is `F0 data… F7` and fits the configured buffer -/
+def WellFormedMsg (c : Cfg) (m : Bytes) : Prop :=
+  (∃ st d1 d2, m = [st, d1, d2] ∧ ((0x80 ≤ st ∧ st ≤ 0xBF) ∨ (0xE0 ≤ st ∧ st ≤ 0xEF)) ∧ d1 < 0x80 ∧ d2 < 0x80) ∨
+  (∃ st d, m = [st, d] ∧ 0xC0 ≤ st ∧ st ≤ 0xDF ∧ d < 0x80) ∨
+  (∃ d, m = [0xF1, d] ∧ d < 0x80) ∨
+  (∃ d1 d2, m = [0xF2, d1, d2] ∧ d1 < 0x80 ∧ d2 < 0x80) ∨
+  (∃ d, m = [0xF3, d] ∧ d < 0x80) ∨
+  m = [0xF6] ∨
+  (∃ b, m = [b] ∧ 0xF8 ≤ b) ∨
+  (∃ d, m = 0xF0 :: (d ++ [0xF7]) ∧ (∀ x ∈ d, x < 0x80) ∧ m.length ≤ c.bufSize)
+
+/-- `retype` on a well-formed frame: the lone-F7 frame is swallowed (listener not called); every other frame
+    becomes a well-formed message with the same first byte; never the panic outcome `some none` -/
+theorem retype_wf (c : Cfg) (f : Frame) (h : WfFrame c f) :
+    (f.1.head? = some 0xF7 ∧ retype f.1 = none) ∨
+    (f.1.head? ≠ some 0xF7 ∧ ∃ m, retype f.1 = some (some m) ∧ WellFormedMsg c m ∧ m.head? = f.1.head?) := by
+  rcases h with ⟨b, hf, hb⟩ | ⟨st, d1, d2, hf, h1, h2, hst⟩ | ⟨_, d, hf, hd, hl⟩
+  · refine Or.inr ⟨by rw [hf]; simp; omega, [b], by rw [hf]; exact retype_rt b [] hb, ?_, by rw [hf]⟩
+    exact Or.inr (Or.inr (Or.inr (Or.inr (Or.inr (Or.inr (Or.inl ⟨b, rfl, hb⟩))))))
+  · rcases hst with ⟨hlo, hhi⟩ | rfl | rfl | rfl | rfl | rfl
+    · refine Or.inr ⟨by rw [hf]; simp; omega, _, by rw [hf]; exact retype_chan st d1 d2 [] hlo hhi h1 h2, ?_, ?_⟩
+      · split
+        · next hc => exact Or.inr (Or.inl ⟨st, d1, rfl, hc.1, hc.2, h1⟩)
+        · next hc => exact Or.inl ⟨st, d1, d2, rfl, by omega, h1, h2⟩
+      · rw [hf]; split <;> rfl
+    · exact Or.inr ⟨by rw [hf]; simp, _, by rw [hf]; exact retype_F1 d1 _ h1,
+        Or.inr (Or.inr (Or.inl ⟨d1, rfl, h1⟩)), by rw [hf]; rfl⟩
+    · exact Or.inr ⟨by rw [hf]; simp, _, by rw [hf]; exact retype_F2 d1 d2 _ h1 h2,
+        Or.inr (Or.inr (Or.inr (Or.inl ⟨d1, d2, rfl, h1, h2⟩))), by rw [hf]⟩
+    · exact Or.inr ⟨by rw [hf]; simp, _, by rw [hf]; exact retype_F3 d1 _ h1,
+        Or.inr (Or.inr (Or.inr (Or.inr (Or.inl ⟨d1, rfl, h1⟩)))), by rw [hf]; rfl⟩
+    · exact Or.inr ⟨by rw [hf]; simp, _, by rw [hf]; exact retype_F6 _,
+        Or.inr (Or.inr (Or.inr (Or.inr (Or.inr (Or.inl rfl))))), by rw [hf]; rfl⟩
+    · exact Or.inl ⟨by rw [hf]; rfl, by rw [hf]; exact retype_F7 _⟩
+  · refine Or.inr ⟨by rw [hf]; simp, _, by rw [hf]; exact retype_sysex _, ?_, by rw [hf]⟩
+    exact Or.inr (Or.inr (Or.inr (Or.inr (Or.inr (Or.inr (Or.inr ⟨d, rfl, hd, by rw [hf] at hl; exact hl⟩))))))
+
 end Midi.Live
